@@ -117,13 +117,15 @@ def loop_handler(ip, s, fr: Frame, it):
         ords = loop_ordinals(top.node)
         ip._loop_ords = ords
     k = ords.get(getattr(s, "_comp_id", id(s)))
+    if k is None and hasattr(s, "_comp_key"):
+        k = s._comp_key            # a value comprehension: keyed by its source text
     if k is None:
         raise Unsupported(f"loop at line {s.lineno} is outside the function under contract")
     inv = c.loops.get(k) if c is not None else None
     if inv is None:
         raise Unsupported(f"loop #{k} ({header_of(s)}) at line {s.lineno} needs an invariant in the sidecar")
     accepted = (inv.header,) if isinstance(inv.header, str) else tuple(inv.header)
-    if header_of(s) not in accepted:
+    if header_of(s) not in accepted and not (isinstance(k, str) and k.startswith("comp ")):
         raise Unsupported(f"sidecar out of date: loop #{k} header is `{header_of(s)}`, sidecar has `{inv.header}`")
     base_env = dict(ip.verify_env) if getattr(ip, "verify_env", None) else {}
     old = getattr(ip, "verify_old", None)
@@ -137,10 +139,16 @@ def loop_handler(ip, s, fr: Frame, it):
     seq_term = None
     idx_name = inv.ghost.get("index")
     arr_it = it if isinstance(it, VArr) and isinstance(s, ast.For) else None
+    if idx_name is None and isinstance(k, str):
+        idx_name = "__ci"
     if arr_it is not None:
         if idx_name is None:
             idx_name = f"__i{k}"
         fr.vars[idx_name] = VInt(0)
+    if isinstance(s, ast.For) and isinstance(it, VMap) and getattr(it, "ordered", False):
+        kref = st.new_ref()
+        st.heap[(kref, "seq")] = st.heap[(it.ref, "keys")]       # `for k in d`: the keys in insertion order
+        it = VSeq(kref, it.key)
     rev = False
     if isinstance(s, ast.For) and isinstance(it, VIter) and it.what == "reversed" and isinstance(it.base, VSeq):
         it, rev = it.base, True          # reversed(seq): the k-th item is seq[len-1-k]; no copy, no quantifier
@@ -382,6 +390,20 @@ def set_update(ip, args, kwargs, node):
 
 def map_setitem(ip, m: VMap, key: V, v: V):
     st = ip.st
+    if getattr(m, "ordered", False):
+        # a new key goes to the end of the insertion order, an existing one keeps its place
+        kt_ = kterm(ip, key)
+        keys = st.heap[(m.ref, "keys")]
+        if st.branch(z3.Select(st.heap[(m.ref, "dom")], kt_)):
+            pass
+        else:
+            pos0 = st.heap[(m.ref, "pos")]
+            pos1 = z3.Function(st.fresh_name("pos"), kt_.sort(), z3.IntSort())
+            new = named_append(st, keys, kt_, z3.Concat(keys, z3.Unit(kt_)))
+            kk = z3.Const(st.fresh_name("k"), kt_.sort())
+            st.assume(z3.ForAll([kk], pos1(kk) == z3.If(kk == kt_, z3.Length(keys), pos0(kk)), patterns=[pos1(kk)]))
+            st.heap[(m.ref, "keys")] = new
+            st.heap[(m.ref, "pos")] = pos1
     st.heap[(m.ref, "dom")] = z3.Store(st.heap[(m.ref, "dom")], kterm(ip, key), z3.BoolVal(True))
     st.heap[(m.ref, "val")] = z3.Store(st.heap[(m.ref, "val")], kterm(ip, key), coerce(ip, v, m.val))
 
@@ -391,6 +413,8 @@ def coerce(ip, v: V, t):
     if t[0] == "opaque":
         if isinstance(v, VOpaque):
             return v.term
+        if isinstance(v, VClass):
+            return z3.Const("class_" + v.name, Opaque)       # a class object used as a plain value
         from .values import VMethod as _VM
         if isinstance(v, _VM) and isinstance(v.obj, VObj) and not v.obj.symbolic:
             return ip.func_token(v)
@@ -412,6 +436,21 @@ def coerce(ip, v: V, t):
             ip.check("ownership:no-shared-mutable-collection", z3.BoolVal(False),
                      where="a set/list object that belongs to another object is stored by reference (shared mutable state)")
         return ip.st.heap[(v.ref, "set" if isinstance(v, VSet) else "seq")]
+    if t[0] in ("obj", "symobj") and isinstance(v, VTuple):
+        # a tuple stored where the sidecar declares a record type with as many fields: a symbolic record with those fields
+        names = list(ip.tenv.fields_of(t[1]))
+        if len(names) != len(v.items):
+            raise Unsupported(f"tuple of {len(v.items)} items stored as {t[1]}")
+        twin = VObj(t[1], ip.st.fresh("record_" + t[1].split("@")[0], obj_sort(t[1])))
+        for f, item in zip(names, v.items):
+            ft = ip.tenv.fields_of(t[1])[f]
+            fv = ip.get_field(twin, f)
+            it = VOpaque(coerce(ip, item, ft)) if ft[0] == "opaque" and not isinstance(item, VOpaque) else item
+            e = ip.eq(fv, it)
+            if e is False:
+                raise Unsupported(f"field {t[1]}.{f}: not comparable")
+            ip.st.assume(_b(e))
+        return twin.ref
     if t[0] in ("obj", "symobj") and isinstance(v, VObj) and not v.symbolic:
         # a heap object stored into a collection of immutable objects: a symbolic twin with equal first-order fields
         twin = VObj(t[1], ip.st.fresh("stored_" + t[1].split("@")[0], obj_sort(t[1])))
@@ -553,6 +592,35 @@ def seq_append(ip, args, kwargs, node):
     return VNone
 
 
+def seq_extend(ip, args, kwargs, node):
+    """list.extend(other): another symbolic list, or the values() of a symbolic dict (in SOME order: every value of the
+    dict occurs, nothing else does)"""
+    s, o = args
+    st = ip.st
+    cur = _seq(ip, s)
+    if isinstance(o, VSeq):
+        st.heap[(s.ref, "seq")] = z3.Concat(cur, _seq(ip, o))
+        return VNone
+    if isinstance(o, VIter) and o.what == "values" and isinstance(o.base, VMap):
+        m = o.base
+        dom, val = st.heap[(m.ref, "dom")], st.heap[(m.ref, "val")]
+        vs = st.fresh("values", cur.sort())
+        at_ = z3.Function(st.fresh_name("key_at"), z3.IntSort(), dom.sort().domain())
+        pos = z3.Function(st.fresh_name("pos_of"), dom.sort().domain(), z3.IntSort())
+        j = z3.Int(st.fresh_name("j"))
+        k = z3.Const(st.fresh_name("k"), dom.sort().domain())
+        inb = z3.And(j >= 0, j < z3.Length(vs))
+        st.assume(z3.ForAll([j], z3.Implies(inb, z3.And(z3.Select(dom, at_(j)), vs[j] == z3.Select(val, at_(j)), pos(at_(j)) == j)),
+                            patterns=[vs[j]]))
+        st.assume(z3.ForAll([k], z3.Implies(z3.Select(dom, k), z3.And(pos(k) >= 0, pos(k) < z3.Length(vs), at_(pos(k)) == k)),
+                            patterns=[z3.Select(dom, k)]))
+        empty = z3.K(dom.sort().domain(), z3.BoolVal(False))
+        st.assume((z3.Length(vs) == 0) == (dom == empty))
+        st.heap[(s.ref, "seq")] = named_concat(st, cur, vs)
+        return VNone
+    raise Unsupported(f"list.extend({o!r})")
+
+
 def seq_insert(ip, args, kwargs, node):
     s, i, x = args
     cur = _seq(ip, s)
@@ -621,6 +689,17 @@ def named_subseq(st, cur, a, ln, sub):
     return res
 
 
+def named_concat(st, a, b):
+    """a ++ b as a named value with its element-wise description"""
+    r = st.fresh("joined", a.sort())
+    j = z3.Int(st.fresh_name("j"))
+    st.assume(r == z3.Concat(a, b))
+    st.assume(z3.Length(r) == z3.Length(a) + z3.Length(b))
+    st.assume(z3.ForAll([j], z3.Implies(z3.And(j >= 0, j < z3.Length(a)), r[j] == a[j]), patterns=[r[j]]))
+    st.assume(z3.ForAll([j], z3.Implies(z3.And(j >= z3.Length(a), j < z3.Length(r)), r[j] == b[j - z3.Length(a)]), patterns=[r[j]]))
+    return r
+
+
 def named_append(st, cur, xt, new):
     s2 = st.fresh("appended", cur.sort())
     i = z3.Int(st.fresh_name("i"))
@@ -652,6 +731,7 @@ def install(lib):  # noqa: F811
     _install_maps(lib)
     meth = lib["__methods__"]
     meth[("seq", "append")] = VBuiltin("list.append", seq_append)
+    meth[("seq", "extend")] = VBuiltin("list.extend", seq_extend)
     meth[("seq", "insert")] = VBuiltin("list.insert", seq_insert)
     meth[("seq", "pop")] = VBuiltin("list.pop", seq_pop)
     lib["__getitem__"]["seq"] = seq_getitem
